@@ -251,11 +251,12 @@ class SchedulerScriptAdapter(ScriptAdapter):
             # any parameters, replace it there with full nodes and procs.
             # Otherwise, just return the command. A user may simply want to run
             # an unparallelized code in a submission.
-            pcmd = self.get_parallelize_command(procs, nodes, **addl_args)
             # Catch the case where the launcher token appears on its own
             if self.launcher_var in step_cmd:
                 LOGGER.debug(
                     "'%s' found in cmd. Substituting", self.launcher_var)
+                pcmd = self.get_parallelize_command(
+                    procs, nodes, **addl_args)
                 return step_cmd.replace(self.launcher_var, pcmd)
             else:
                 LOGGER.debug("The command did not specify an MPI command.")
